@@ -60,6 +60,9 @@ PROPS['C18'] = dict(
     mc=dict(quick=[mc('MC_SectionWriter', 'MC_SectionWriter_q.cfg', expect_min_distinct=5000), mc('MC_SectionWriter2', 'MC_SectionWriter2_q.cfg', expect_min_distinct=5000)],
             thorough=[mc('MC_SectionWriter', 'MC_SectionWriter.cfg', expect_min_distinct=5000), mc('MC_SectionWriter2', 'MC_SectionWriter2.cfg', expect_min_distinct=200000)]),
     need_kinds=['sw', 'swn'],
+    # (the false variants, which must turn out unprovable, make every back end run into its time limit: thorough tier only)
+    tlaps=dict(quick=[dict(module='SectionWriterProof'), dict(module='SectionWriter2Proof')],
+               thorough=[dict(module='SectionWriterProof', refute='SectionWriterProofBad'), dict(module='SectionWriter2Proof', refute='SectionWriter2ProofBad')]),
     apalache=dict(quick=[dict(module='SectionWriterInd', cinit='CInit', runs=[('Init', 'IndInv', 0), ('IndInit', 'IndInv', 1), ('IndInit', 'Property', 0)],
                               refute=[('IndInit', 'BadNeverWrites', 1), ('IndInit', 'BadCursorStays', 1), ('IndInit', 'BadNeverShort', 1)])],
                   thorough=[dict(module='SectionWriterInd', cinit='CInit', runs=[('Init', 'IndInv', 0), ('IndInit', 'IndInv', 1), ('IndInit', 'Property', 0)],
